@@ -19,7 +19,7 @@ import numpy as np
 from hypothesis import strategies as st
 
 from vlib.runner import Sub, Violation, Reject, ok
-from vlib.util import rng_of, scratch_dir, maxabs
+from vlib.util import rng_of, scratch_dir
 from vlib import wbsys
 
 PROPERTY_ID = "C19"
@@ -559,9 +559,9 @@ def check_box(case):
 
 
 SUBS = [
-    Sub("eig_text", eig_st, check_eig, quick=480, thorough=16000),
-    Sub("amn_text", amn_st, check_amn, quick=480, thorough=16000),
-    Sub("mmn_text", mmn_st, check_mmn, quick=400, thorough=12000),
-    Sub("npz", npz_st, check_npz, quick=1200, thorough=48000),
-    Sub("box", box_st, check_box, quick=320, thorough=12000),
+    Sub("eig_text", eig_st, check_eig, quick=480, thorough=10000),
+    Sub("amn_text", amn_st, check_amn, quick=480, thorough=10000),
+    Sub("mmn_text", mmn_st, check_mmn, quick=400, thorough=8000),
+    Sub("npz", npz_st, check_npz, quick=1200, thorough=24000),
+    Sub("box", box_st, check_box, quick=320, thorough=8000),
 ]
